@@ -27,6 +27,16 @@ def run(ctx):
             jn = rng.choice([x for x in range(len(rows)) if x != j])
             rows[jn][0][1][0] = None
             ops_nf.case_sort(ctx, Subject(ctx, content={"ty": [["a", "int64"], ["b", "double"]], "rows": rows}))
+        if i % 40 == 3:
+            # rows of very different sizes: a few records between rows of a hundred and more (row boundaries must be
+            # found exactly, not estimated)
+            rng = ctx.rng
+            rows = []
+            for k in rng.sample([150, 3, 150, 1, 0, 70, 200, 2], rng.randint(3, 4)):
+                rows.append([["a", [rng.randint(-50, 50) for _ in range(k)]], ["b", [{"f": rng.randint(-6, 12)} for _ in range(k)]]])
+            if not any(len(r[0][1]) >= 150 for r in rows):
+                rows[0] = [["a", [rng.randint(-50, 50) for _ in range(150)]], ["b", [{"f": 1} for _ in range(150)]]]
+            ops_nf.case_sort(ctx, Subject(ctx, content={"ty": [["a", "int64"], ["b", "double"]], "rows": rows}))
         if i % 6 == 0:
             ops_nf.case_sort(ctx, s, nest_name="my nest")
         if i % 5 == 0:
